@@ -5,5 +5,6 @@ CONSTANTS
   TopoOrder <- Topo5
 INVARIANTS
   Sane
+  NestedSane
   Emit
 CHECK_DEADLOCK FALSE
